@@ -22,6 +22,21 @@ def rules_block():
     return "\n".join(out)
 
 
+def more_block():
+    """rules each check runs that the prose paragraph of its property (section 5) does not name"""
+    text = open(os.path.join(HERE, "DESIGN.md")).read()
+    out = []
+    for p in sorted(glob.glob(os.path.join(HERE, "evidence", "C*.json"))):
+        e = json.load(open(p))
+        pid = e["property_id"]
+        m = re.search(r"^### %s — .*?(?=^### |^---)" % pid, text, re.S | re.M)
+        para = m.group(0) if m else ""
+        extra = [r for r in sorted(e["coverage"].get("per_rule", {})) if r not in para]
+        if extra:
+            out.append("* **%s** also runs: %s." % (pid, ", ".join(extra)))
+    return "\n".join(out)
+
+
 def catalogue_block():
     rules = {}
     for p in sorted(glob.glob(os.path.join(HERE, "evidence", "C*.json"))):
@@ -86,7 +101,7 @@ def seeds_block():
 def main():
     p = os.path.join(HERE, "DESIGN.md")
     s = open(p).read()
-    for name, fn in (("RULES", rules_block), ("CATALOGUE", catalogue_block), ("SEEDS", seeds_block)):
+    for name, fn in (("RULES", rules_block), ("MORE", more_block), ("CATALOGUE", catalogue_block), ("SEEDS", seeds_block)):
         b, e = "<!-- BEGIN:%s -->" % name, "<!-- END:%s -->" % name
         if b in s and e in s:
             s = s[:s.index(b) + len(b)] + "\n" + fn() + "\n" + s[s.index(e):]
